@@ -113,7 +113,9 @@ func andxValues() []andx.AndX {
 	for _, off := range enum.ByteDistinct(2) {
 		out = append(out, andx.AndX{AndXCommand: 0x75, AndXReserved: 0, AndXOffset: uint16(off)})
 	}
-	out = append(out, andx.AndX{AndXCommand: 0x2E, AndXReserved: 0x01, AndXOffset: 0x0102}, andx.AndX{AndXCommand: 0xFF, AndXReserved: 0xFE, AndXOffset: 0})
+	out = append(out, andx.AndX{AndXCommand: 0x2E, AndXReserved: 0x01, AndXOffset: 0x0102}, andx.AndX{AndXCommand: 0xFF, AndXReserved: 0xFE, AndXOffset: 0},
+		// "no further command" with an offset all the same: the three slots are independent of each other
+		andx.AndX{AndXCommand: 0xFF, AndXReserved: 0x01, AndXOffset: 0x0203})
 	return out
 }
 
@@ -296,6 +298,35 @@ func (w *worker) eval(a *refsmb.Assign, r *explore.Run, ax *andx.AndX) {
 		}
 	}
 
+	// ------------------------------------------------------------ the caller's memory layout and hidden lengths
+	if n, _ := smbgen.NumDev(a); n <= 1 && ax == nil && merr == nil {
+		// (a) the same field values held back to back in ONE caller buffer (declared order, and first field
+		// first with the others reversed): the bytes emitted are the MS-CIFS encoding of the VALUES, wherever
+		// they live, and the caller's buffers are not written
+		for _, rotated := range []bool{false, true} {
+			y, err := a.Build()
+			if err != nil {
+				break
+			}
+			if moved := smbgen.RehomeOrder(y, rotated); moved < 2 || rotated && moved < 3 {
+				continue
+			}
+			b2, e2, p2, _ := smbgen.Marshal(y)
+			w.check(w.key("marshal/independent-of-caller-buffer-layout"), !p2 && e2 == nil && bytes.Equal(b2, b), func() string {
+				return fmt.Sprintf("%s{%s} with its byte fields held back to back in one caller buffer (%s): Marshal() = %s (err %v), with independent buffers %s", cmd.Name, label,
+					map[bool]string{false: "declared order", true: "first field first, the others in reverse order"}[rotated], vf.HexS(b2), e2, vf.HexS(b))
+			})
+		}
+		// (b) string members whose Length the caller left at zero (Buffer assigned directly): Length is what
+		// Marshal derives from the buffer, so nothing emitted may depend on its previous value
+		if y, err := a.Build(); err == nil && staleStringLengths(reflect.ValueOf(y), 0) > 0 {
+			b2, e2, p2, _ := smbgen.Marshal(y)
+			w.check(w.key("marshal/independent-of-stale-string-Length"), !p2 && e2 == nil && bytes.Equal(b2, b), func() string {
+				return fmt.Sprintf("%s{%s} with the Length member of every non-empty string set to 0 before Marshal (as after assigning Buffer directly): Marshal() = %s (err %v), with Length = len(Buffer) it is %s", cmd.Name, label, vf.HexS(b2), e2, vf.HexS(b))
+			})
+		}
+	}
+
 	// ------------------------------------------------------------ decode direction
 	if ref.Odd {
 		return
@@ -338,6 +369,42 @@ func (w *worker) eval(a *refsmb.Assign, r *explore.Run, ax *andx.AndX) {
 			w.decoded("-modulo-andx", label, want, d2, stripped)
 		}
 	}
+}
+
+// staleStringLengths zeroes the Length member of every SMB_STRING reachable from v whose Buffer is not
+// empty; returns how many it changed.
+func staleStringLengths(v reflect.Value, depth int) int {
+	if depth > 6 {
+		return 0
+	}
+	n := 0
+	switch v.Kind() {
+	case reflect.Ptr, reflect.Interface:
+		if !v.IsNil() {
+			n += staleStringLengths(v.Elem(), depth+1)
+		}
+	case reflect.Struct:
+		if v.Type().Name() == "SMB_STRING" {
+			buf, l := v.FieldByName("Buffer"), v.FieldByName("Length")
+			if buf.IsValid() && l.IsValid() && l.CanSet() && buf.Len() > 0 && l.Uint() != 0 {
+				l.SetUint(0)
+				return 1
+			}
+			return 0
+		}
+		for i := 0; i < v.NumField(); i++ {
+			if v.Type().Field(i).PkgPath == "" && v.Type().Field(i).Name != "Parameters" && v.Type().Field(i).Name != "Data" {
+				n += staleStringLengths(v.Field(i), depth+1)
+			}
+		}
+	case reflect.Slice, reflect.Array:
+		if v.Type().Elem().Kind() == reflect.Struct {
+			for i := 0; i < v.Len(); i++ {
+				n += staleStringLengths(v.Index(i), depth+1)
+			}
+		}
+	}
+	return n
 }
 
 // staleCounts: a count field that the caller left stale (0, or one more than the buffer holds) next to a
